@@ -64,7 +64,7 @@ def observe(x, depth=0):
         return [
             type(x).__name__ if isinstance(x, pendulum.DateTime) else "native-datetime",
             [x.year, x.month, x.day, x.hour, x.minute, x.second, x.microsecond],
-            x.fold,
+            _canon_fold(x),
             _off(x),
             tz_obs(x.tzinfo),
         ]
@@ -83,6 +83,29 @@ def observe(x, depth=0):
     if isinstance(x, (bytes, bytearray)):
         return ["bytes", len(x)]
     return ["obj", type(x).__name__, str(x)[:200]]
+
+
+def _canon_fold(x):
+    """fold is part of the value only where it selects between two instants, i.e. for a
+    repeated wall time.  For every other wall time it is a hidden bit that e.g.
+    datetime.astimezone() sets differently depending on whether the target tzinfo *is* the
+    source tzinfo object (zone-cache identity), so it is not an observation."""
+    tz = x.tzinfo
+    if tz is None or isinstance(tz, FixedTimezone) or isinstance(tz, _dt.timezone):
+        return None
+    try:
+        f = (x.year, x.month, x.day, x.hour, x.minute, x.second, x.microsecond)
+        o0 = _dt.datetime(*f, tzinfo=tz, fold=0).utcoffset()
+        o1 = _dt.datetime(*f, tzinfo=tz, fold=1).utcoffset()
+    except Exception:
+        return x.fold
+    if o0 is not None and o1 is not None and o0 > o1:
+        return x.fold
+    return None
+
+
+def raw_fold(x):
+    return x.fold if isinstance(x, _dt.datetime) else None
 
 
 def _native(x, attr):
